@@ -9,6 +9,7 @@ import itertools, math, contextlib
 from fractions import Fraction
 import numpy as np
 from . import common
+from .c12 import checked, _desc
 
 THEOREM_FILES = ['NumqiProps/C17.lean']
 GREP_FILES = ['NumqiProofs/DickeReduction.lean']
@@ -79,7 +80,13 @@ def all_dim_lists(lens, entries=(2, 3, 4)):
 def keep_variants(rng, keep, n):
     """the same keep set as the different collection types the function accepts"""
     keep = list(keep)
-    kind = rng.randrange(4)
+    kind = rng.randrange(7)
+    if kind == 4:
+        return np.array(keep, dtype=np.int64)
+    if kind == 5 and len(keep) == 1:
+        return np.int64(keep[0])
+    if kind == 6 and keep == list(range(len(keep))):
+        return range(len(keep))
     if kind == 0:
         return set(keep)
     if kind == 1:
@@ -89,6 +96,18 @@ def keep_variants(rng, keep, n):
     if len(keep) == 1 and kind == 3:
         return int(keep[0])          # non-iterable branch
     return tuple(keep)
+
+
+def dims_variant(rng, dims):
+    """the dimension list as the argument kinds the function accepts"""
+    k = rng.randrange(4)
+    if k == 0:
+        return list(dims)
+    if k == 1:
+        return np.array(dims, dtype=np.int64)
+    if k == 2:
+        return tuple(np.int64(x) for x in dims)
+    return tuple(dims)
 
 
 def pt_ops(ctx):
@@ -121,7 +140,16 @@ def pt_ops(ctx):
             if dense:
                 ops.append(f'C17 pt {ds} {ks} {gint_list(rho)}')
                 VARIANTS[ops[-1]] = kv
-                impl.append(guarded(lambda: gint_list(numqi.utils.partial_trace(rho, dims, kv))))
+                dv = dims_variant(rng, dims)
+                impl.append(guarded(lambda: gint_list(checked(ctx, 'partial_trace', numqi.utils.partial_trace, rho, dv, kv))))
+                if len(kcanon) in (1, n - 1):
+                    # input classes: integer / float32 real data, a transposed (non-contiguous) view of the same operator
+                    rre = rho.real.copy()
+                    for tag, arr in (('int64', rre.astype(np.int64)), ('float32', rre.astype(np.float32)), ('view', np.ascontiguousarray(rho.T).T)):
+                        src = rho if tag == 'view' else rre
+                        ops.append(f'C17 pt {ds} {ks} {gint_list(src)}'); VARIANTS[ops[-1]] = kv
+                        impl.append(guarded(lambda arr=arr: gint_list(np.asarray(checked(ctx, 'partial_trace[' + tag + ']', numqi.utils.partial_trace, arr, dv, kv)))))
+                        ctx.count('pt-' + tag)
                 if len(kcanon) in (1, n - 1) or not ctx.quick():
                     # torch input (no grad): np.einsum converts it, the result is a numpy array with the same entries
                     ops.append(ops[-1]); VARIANTS[ops[-1]] = kv
@@ -210,6 +238,15 @@ def dicke_ops(ctx):
     for n, d in grid:
         ops.append(f'C17 klist {n} {d}')
         impl.append(guarded(lambda: '|'.join(';'.join(map(str, k)) for k in D.get_dicke_klist(n, d))))
+        if (n + d) % 2 == 0:
+            # np.int64 sizes
+            ops.append(f'C17 klist {n} {d}')
+            impl.append(guarded(lambda: '|'.join(';'.join(str(int(x)) for x in k) for k in D.get_dicke_klist(np.int64(n), np.int64(d)))))
+            ops.append(f'C17 number {n} {d}')
+            impl.append(guarded(lambda: str(int(D.get_dicke_number(np.int64(n), np.int64(d))))))
+            ops.append(f'C17 bij {n} {d}')
+            impl.append(guarded(lambda: bij_line(D.get_partial_trace_ABk_to_AB_index(np.int64(n), np.int64(d)), n)))
+            ctx.count('dicke-np.int64')
         ops.append(f'C17 number {n} {d}')
         impl.append(guarded(lambda: str(D.get_dicke_number(n, d))))
         ops.append(f'C17 bij {n} {d}')
@@ -263,10 +300,21 @@ def dicke_ops(ctx):
         tline = '|'.join(';'.join(f'{int(i)}:{int(j)}:{int(v.real)},{int(v.imag)}' for i, j, v in zip(*t)) or '-' for t in tabs)
         op = f'C17 asm {dimA} {dimB} {L} {tline} {gint_list(psi)}'
         ops.append(op)
-        impl.append(guarded(lambda: gint_list(D.partial_trace_ABk_to_AB(psi, tabs))))
+        impl.append(guarded(lambda: gint_list(checked(ctx, 'partial_trace_ABk_to_AB', D.partial_trace_ABk_to_AB, psi, tabs))))
+        if rep % 2 == 0:
+            # real data as int64 / float32 / float64 and a strided view of the complex matrix (same integers for the model)
+            pre = psi.real.copy()
+            opr = f'C17 asm {dimA} {dimB} {L} {tline} {gint_list(pre)}'
+            for tag, arr in (('int64', pre.astype(np.int64)), ('float32', pre.astype(np.float32)), ('float64', pre.astype(np.float64))):
+                ops.append(opr)
+                impl.append(guarded(lambda arr=arr: gint_list(checked(ctx, 'partial_trace_ABk_to_AB[' + tag + ']', D.partial_trace_ABk_to_AB, arr, tabs))))
+                ctx.count('asm-' + tag)
+            big = np.zeros((dimA, 2 * L), dtype=psi.dtype); big[:, ::2] = psi
+            ops.append(op)
+            impl.append(guarded(lambda: gint_list(checked(ctx, 'partial_trace_ABk_to_AB[view]', D.partial_trace_ABk_to_AB, big[:, ::2], tabs))))
         ttabs = [(torch.tensor(a, dtype=torch.int64), torch.tensor(b, dtype=torch.int64), torch.tensor(v, dtype=torch.complex128)) for a, b, v in tabs]
         ops.append(op)
-        impl.append(guarded(lambda: gint_list(D.partial_trace_ABk_to_AB(torch.tensor(psi, dtype=torch.complex128), ttabs).numpy())))
+        impl.append(guarded(lambda: gint_list(checked(ctx, 'partial_trace_ABk_to_AB[torch]', D.partial_trace_ABk_to_AB, torch.tensor(psi, dtype=torch.complex128), ttabs).numpy())))
         ctx.count('asm-numpy'); ctx.count('asm-torch')
     return ops, impl
 
@@ -456,8 +504,31 @@ def explicit_reduction(psi, basis, dimA, dimB, k):
     return rho.reshape(dimA * dimB, dimA * dimB)
 
 
+def corpus_replay(ctx):
+    """/verif/corpus/C17/*.json: the recorded failing input of every repaired defect, replayed first on every run (both tiers)"""
+    import glob, json, os, numqi
+    for path in sorted(glob.glob(os.path.join(common.VERIF, 'corpus', 'C17', '*.json'))):
+        tag = os.path.basename(path)[:-5]
+        for e in json.load(open(path))['entries']:
+            if e.get('kind') != 'partial_trace':
+                continue
+            dims = tuple(e['dims']); D = int(np.prod(dims))
+            keep = {'set': set, 'list': list, 'tuple': tuple}[e['keep_type']](e['keep'])
+            rho = (np.arange(D * D).reshape(D, D) + 1j * np.arange(D * D)[::-1].reshape(D, D)).astype(np.complex128)
+            got = guarded(lambda: numqi.utils.partial_trace(rho, dims, keep))
+            rep = dict(op='partial_trace', corpus=tag, dims=list(dims), keep_index=repr(keep))
+            key = EMPTY_KEEP_KEY if len(e['keep']) == 0 else 'partial_trace-contraction'
+            if isinstance(got, str):
+                ctx.fail(key, f'[corpus {tag}] partial_trace(rho, dim={dims}, keep_index={keep!r}) raises {got}', rep)
+            elif not np.array_equal(got, explicit_partial_trace(rho, dims, e['keep'])):
+                ctx.fail(key, f'[corpus {tag}] partial_trace(rho, dim={dims}, keep_index={keep!r}) != explicit contraction', rep)
+            else:
+                ctx.probe_ok(('corpus', tag, dims, e['keep_type']))
+
+
 def probe(ctx):
     import numqi, torch
+    corpus_replay(ctx)
     rng = ctx.rng
     nrng = np.random.default_rng(ctx.np_seed + 2)
     # (a) partial trace = explicit contraction, trace preserved, two steps = one step
